@@ -91,6 +91,21 @@ def extract_macro_body(repo, rel, sel):
     return txt[last_open:bc + 1], txt.count("\n", 0, last_open) + 1
 
 
+def extract_invocation(repo, rel, sel):
+    """T17b: a whole macro invocation `name!( .. );` starting with the unique text `sel`, verbatim"""
+    p = os.path.join(repo, rel)
+    if not os.path.exists(p):
+        raise RuntimeError("lost anchor: %s missing" % rel)
+    txt = open(p).read()
+    masked = rs.mask(txt)
+    k = masked.find(sel)
+    if k < 0 or masked.find(sel, k + 1) >= 0:
+        raise RuntimeError("lost anchor: macro invocation `%s` in %s" % (sel, rel))
+    po = masked.index("(", k)
+    pc = rs.match_close(masked, po)
+    return txt[k:pc + 1] + ";", txt.count("\n", 0, k) + 1
+
+
 def parse_kani_output(out):
     res = {"status": "UNKNOWN", "failed": [], "covers": None, "checks": None}
     m = re.search(r"VERIFICATION:- (SUCCESSFUL|FAILED)", out)
@@ -175,6 +190,8 @@ def run_kani_unit(name, workdir, tier, prop):
         for e in cfg.get("extract", []):
             if e.get("block"):
                 text, line = extract_block(REPO, e["file"], e["sel"], e["block"]["from"], e["block"]["to"], e["block"].get("skip", 0))
+            elif e.get("invocation"):
+                text, line = extract_invocation(REPO, e["file"], e["invocation"])
             elif e.get("macro_body"):
                 text, line = extract_macro_body(REPO, e["file"], e["macro_body"])
             else:
